@@ -103,7 +103,14 @@ func VerifC04Faults() {
 		conn.cutAt = verifIntRange("cut", 0, len(s.script)-1)
 	case 1: // client write fails after byte k
 		conn.failAfter = verifIntRange("wfail", 0, len(s.want)-1)
+		if verifChoice("server-stays-silent", 2) == 1 {
+			// the server has nothing to answer and never hangs up: only the client's own failure can end the call
+			conn.maxIdle = 1 << 20
+		}
 	case 2: // a user callback fails
+		if verifChoice("server-stays-silent", 2) == 1 {
+			conn.maxIdle = 1 << 20
+		}
 		if s.q.OnResult != nil {
 			s.q.OnResult = func(ctx context.Context, b proto.Block) error { return vCallbackErr{} }
 		} else {
